@@ -243,6 +243,27 @@ theorem requeueBody_eq : Nsq.Gen.Codec.requeueBody = [
   "err := c.put(msg)",
   "return err",
   "}",
+  "return c.StartDeferredTimeout(msg, timeout)"] ∨ Nsq.Gen.Codec.requeueBody = [
+  -- third shape (fixes/F27, C08 audit B17; engineer life3): the channel's read lock as well, so that `Channel.Empty`
+  -- (write lock) cannot run while the message is in REQ's hands; what is popped and which delay is used are unchanged
+  "c.exitMutex.RLock()",
+  "defer c.exitMutex.RUnlock()",
+  "c.RLock()",
+  "defer c.RUnlock()",
+  "msg, err := c.popInFlightMessage(clientID, id)",
+  "if err != nil {",
+  "return err",
+  "}",
+  "verifPoint(\"chan.req.afterPop\")",
+  "c.removeFromInFlightPQ(msg)",
+  "atomic.AddUint64(&c.requeueCount, 1)",
+  "if timeout == 0 {",
+  "if c.Exiting() {",
+  "return errors.New(\"exiting\")",
+  "}",
+  "err := c.put(msg)",
+  "return err",
+  "}",
   "return c.StartDeferredTimeout(msg, timeout)"] := by decide
 
 /-- `Channel.processInFlightQueue` = `Model.Timing.scanInFlight` — the shape after fix F16: the heap pop
